@@ -1,5 +1,303 @@
 import NibabelModel.Model.C05
-/-! Props/C05 — the property theorems for C05 (statements + proofs; helper lemmas live in Lemmas/). -/
+import NibabelModel.Lemmas.C05
+import NibabelModel.Lemmas.C05_pairs2
+import NibabelModel.Lemmas.C05_inv
+import NibabelModel.Lemmas.C05_canon
+/-! Props/C05 — property theorems for C05 (reorienting, canonicalising and slicing keep each voxel
+    at its world position).  See DESIGN.md §5 C05.  All statements are about Model/C05.lean, which
+    is compared with the real code on every generated case of every run. -/
 namespace Nb.C05
+open Nb Nb.C06
+
+/-! ### slicer -/
+
+/-- Per sliced axis: the `j`-th selected index is `start + step*j` with
+    `(start, _, step) = s.indices(n)`, and it is inside the axis.  (All `n`, all slices with a
+    non-zero step, all `j` below the result length.) -/
+theorem slice_axis_src (s : PySlice) (n : Nat) (hv : s.Valid) (j : Nat) (hj : j < s.len n) :
+    (((s.sel n).getD j 0 : Nat) : Int) = (s.indices n).1 + (s.indices n).2.2 * (j : Int) ∧
+      (s.sel n).getD j 0 < n :=
+  slice_axis_src' s n hv j hj
+
+example : (⟨none, none, some (-2)⟩ : PySlice).Valid ∧ 1 < (⟨none, none, some (-2)⟩ : PySlice).len 5 := by decide
+
+/-- The algebra of `slice_affine` over ANY commutative ring (so also for rational / real affines):
+    `affine.dot(transform)` applied to `k` is `affine` applied to `start + step*k`. -/
+theorem scaleShift_apply_ring {R : Type} [Lean.Grind.CommRing R] (A : Aff R)
+    (p0 p1 p2 s0 s1 s2 x y z : R) :
+    (A.comp (scaleShift p0 p1 p2 s0 s1 s2)).apply x y z =
+      A.apply (s0 + p0 * x) (s1 + p1 * y) (s2 + p2 * z) :=
+  scaleShift_apply_ring' A ..
+
+/-- **slicer_world**: for every integer affine `A`, every image shape, every index expression
+    accepted by `img.slicer[...]`, and every voxel `j` of the result: `j` has at least three
+    coordinates, its source voxel `src(j)` (the gather that produces the new data) lies inside
+    the image, and the new affine applied to `j` equals the old affine applied to `src(j)`. -/
+theorem slicer_world (A : Aff Int) (shape : List Nat) (idx : List IdxItem) (o : SliceOut)
+    (h : slicer A shape idx = .ok o) (j : List Nat) (hj : j ∈ allIdx o.shape) :
+    ∃ j0 j1 j2 jr x y z xr n0 n1 n2 nr,
+      j = j0 :: j1 :: j2 :: jr ∧ shape = n0 :: n1 :: n2 :: nr ∧
+      srcIdx o.sels j = x :: y :: z :: xr ∧ x < n0 ∧ y < n1 ∧ z < n2 ∧
+      o.affine.apply j0 j1 j2 = A.apply x y z := by
+  unfold slicer at h
+  split at h
+  · cases h
+  · rename_i can hcan
+    split at h
+    · rename_i s0 s1 s2 crest n0 n1 n2 nrest
+      split at h
+      · cases h
+      · rename_i rsels hrs
+        split at h
+        · cases h
+        · rename_i hz
+          dsimp only at h
+          split at h
+          · cases h
+          · rename_i he
+            injection h with h
+            subst h
+            simp only [List.any_cons, Bool.or_eq_true, not_or, Bool.not_eq_true] at hz
+            have hv0 := valid_of_not_zeroStep s0 hz.1
+            have hv1 := valid_of_not_zeroStep s1 hz.2.1
+            have hv2 := valid_of_not_zeroStep s2 hz.2.2.1
+            simp only [outShape] at hj
+            obtain ⟨j0, r0, hj0, hr0, rfl⟩ := mem_allIdx_cons.mp hj
+            obtain ⟨j1, r1, hj1, hr1, rfl⟩ := mem_allIdx_cons.mp hr0
+            obtain ⟨j2, r2, hj2, hr2, rfl⟩ := mem_allIdx_cons.mp hr1
+            rw [PySlice.sel_length] at hj0 hj1 hj2
+            have a0 := slice_axis_src s0 n0 hv0 j0 hj0
+            have a1 := slice_axis_src s1 n1 hv1 j1 hj1
+            have a2 := slice_axis_src s2 n2 hv2 j2 hj2
+            refine ⟨j0, j1, j2, r2, _, _, _, _, n0, n1, n2, nrest, rfl, rfl, rfl, a0.2, a1.2, a2.2, ?_⟩
+            simp only [sliceAffine]
+            rw [scaleShift_apply_int, a0.1, a1.1, a2.1]
+    · cases h
+
+/-- non-vacuity: `img.slicer[::-1, -2:, 1::2, None, 0]` on a (2,3,4,2) image succeeds and the result
+    has voxels -/
+example : ∃ o, slicer ⟨⟨2, 1, 0, -3⟩, ⟨-1, 3, 1, 4⟩, ⟨0, 1, -2, 5⟩⟩ [2, 3, 4, 2]
+    [.slice ⟨none, none, some (-1)⟩, .slice ⟨some (-2), none, none⟩, .slice ⟨some 1, none, some 2⟩,
+     .newaxis, .int 0] = .ok o ∧ [1, 1, 1, 0] ∈ allIdx o.shape := by
+  refine ⟨_, rfl, ?_⟩
+  decide
+
+/-- The pinned (pre-fix) `slice_affine` used `slice.start or 0` and the raw step: for
+    `img.slicer[::-1]` on an axis of length 2 with the identity affine, output voxel 0 (whose
+    source is voxel 1) was placed at world x = 0 instead of 1. -/
+theorem slicer_orig_counterexample :
+    (sliceAffineOrig ⟨⟨1, 0, 0, 0⟩, ⟨0, 1, 0, 0⟩, ⟨0, 0, 1, 0⟩⟩ ⟨none, none, some (-1)⟩ ⟨none, none, none⟩
+        ⟨none, none, none⟩).apply 0 0 0 ≠
+      (⟨⟨1, 0, 0, 0⟩, ⟨0, 1, 0, 0⟩, ⟨0, 0, 1, 0⟩⟩ : Aff Int).apply
+        (((⟨none, none, some (-1)⟩ : PySlice).sel 2).getD 0 0 : Nat) 0 0 := by
+  decide
+
+/-! ### as_reoriented -/
+
+/-- **reorient_world**: for every integer affine, every image shape (≥ 3 axes), each of the 48
+    signed permutations `o`, and every voxel `j` of `img.as_reoriented(o)`: the source voxel
+    `src(j)` is inside the image, the non-spatial coordinates are unchanged, and the new affine
+    (`affine.dot(inv_ornt_aff(o, shape))`) applied to `j` equals the old affine applied to `src(j)`. -/
+theorem reorient_world (A : Aff Int) (n0 n1 n2 : Nat) (nr : List Nat) (d : DimInfo) (o : Ornt)
+    (ho : o ∈ allOrnts3) (r : ReorOut)
+    (h : asReoriented A (n0 :: n1 :: n2 :: nr) d (o.map some) = .ok r)
+    (j : List Nat) (hj : j ∈ allIdx r.shape) :
+    ∃ j0 j1 j2 jr x y z,
+      j = j0 :: j1 :: j2 :: jr ∧ r.src (n0 :: n1 :: n2 :: nr) j = x :: y :: z :: jr ∧
+      x < n0 ∧ y < n1 ∧ z < n2 ∧ jr ∈ allIdx nr ∧
+      r.affine.apply j0 j1 j2 = A.apply x y z := by
+  obtain ⟨a0, a1, a2, f0, f1, f2, rfl, hp, hf0, hf1, hf2⟩ := mem_allOrnts3_elim ho
+  have hto : OrntN.toOrnt (List.map some [(a0, f0), (a1, f1), (a2, f2)]) = some [(a0, f0), (a1, f1), (a2, f2)] := rfl
+  unfold asReoriented at h
+  rw [hto] at h
+  dsimp only at h
+  split at h
+  · -- identity orientation: `return self`
+    rename_i hid
+    injection h with h
+    subst h
+    obtain ⟨j0, r0, hj0, hr0, rfl⟩ := mem_allIdx_cons.mp hj
+    obtain ⟨j1, r1, hj1, hr1, rfl⟩ := mem_allIdx_cons.mp hr0
+    obtain ⟨j2, r2, hj2, hr2, rfl⟩ := mem_allIdx_cons.mp hr1
+    exact ⟨j0, j1, j2, r2, j0, j1, j2, rfl, by simp [ReorOut.src], hj0, hj1, hj2, hr2, rfl⟩
+  · rename_i hid
+    split at h
+    · cases h
+    · obtain ⟨l0, l1, l2⟩ := perms3_lt hp
+      split at h
+      · cases h
+      · rename_i inv hinv
+        injection h with h
+        subst h
+        obtain ⟨j0, j1, j2, jr, rfl, hjr, b0, b1, b2, hsrc⟩ := applyOrnt_char a0 a1 a2 f0 f1 f2 hp n0 n1 n2 nr j hj
+        obtain ⟨inv', hinv', happ⟩ := invOrntAff_apply a0 a1 a2 f0 f1 f2 l0 l1 l2 n0 n1 n2 nr j0 j1 j2
+        rw [hinv] at hinv'
+        injection hinv' with hinv'
+        subst hinv'
+        refine ⟨j0, j1, j2, jr, flipIdx n0 f0 ([j0, j1, j2].getD a0 0), flipIdx n1 f1 ([j0, j1, j2].getD a1 0),
+          flipIdx n2 f2 ([j0, j1, j2].getD a2 0), rfl, ?_, ?_, ?_, ?_, hjr, ?_⟩
+        · simp only [ReorOut.src, Bool.false_eq_true, if_false]; exact hsrc
+        · unfold flipIdx; split <;> omega
+        · unfold flipIdx; split <;> omega
+        · unfold flipIdx; split <;> omega
+        · show (A.comp inv).apply _ _ _ = _
+          rw [comp_apply_ring, happ]
+          simp only [getD_cast3 _ l0, getD_cast3 _ l1, getD_cast3 _ l2]
+          rw [flipTrans_apply n0 f0 hf0 _ b0, flipTrans_apply n1 f1 hf1 _ b1, flipTrans_apply n2 f2 hf2 _ b2]
+
+/-- non-vacuity: a genuine flip + axis swap of a (2,3,4,2) image -/
+example : ∃ r, [(1, -1), (0, 1), (2, 1)] ∈ allOrnts3 ∧
+    asReoriented ⟨⟨2, 1, 0, -3⟩, ⟨-1, 3, 1, 4⟩, ⟨0, 1, -2, 5⟩⟩ [2, 3, 4, 2] [some 0, some 1, some 2]
+      ([(1, -1), (0, 1), (2, 1)].map some) = .ok r ∧ [2, 1, 3, 1] ∈ allIdx r.shape := by
+  refine ⟨_, by decide, rfl, by decide⟩
+
+/-- **dim_info_follows**: a frequency / phase / slice label on voxel axis `lab` of the input is on
+    voxel axis `lab'` of the reoriented image, where `lab'` is an axis of the same length whose
+    coordinate alone determines (identically or reversed) the source coordinate along `lab`. -/
+theorem dim_info_follows (A : Aff Int) (n0 n1 n2 : Nat) (nr : List Nat) (d : DimInfo) (o : Ornt)
+    (ho : o ∈ allOrnts3) (r : ReorOut)
+    (h : asReoriented A (n0 :: n1 :: n2 :: nr) d (o.map some) = .ok r)
+    (k lab : Nat) (hk : d[k]? = some (some lab)) (hlab : lab < 3) :
+    ∃ lab', r.dimInfo[k]? = some (some lab') ∧ lab' < 3 ∧
+      r.shape.getD lab' 0 = (n0 :: n1 :: n2 :: nr).getD lab 0 ∧
+      ∃ f : Int, ∀ j ∈ allIdx r.shape,
+        (r.src (n0 :: n1 :: n2 :: nr) j).getD lab 0 =
+          flipIdx ((n0 :: n1 :: n2 :: nr).getD lab 0) f (j.getD lab' 0) := by
+  obtain ⟨a0, a1, a2, f0, f1, f2, rfl, hp, hf0, hf1, hf2⟩ := mem_allOrnts3_elim ho
+  have hto : OrntN.toOrnt (List.map some [(a0, f0), (a1, f1), (a2, f2)]) = some [(a0, f0), (a1, f1), (a2, f2)] := rfl
+  unfold asReoriented at h
+  rw [hto] at h
+  dsimp only at h
+  split at h
+  · injection h with h
+    subst h
+    refine ⟨lab, hk, hlab, rfl, 1, ?_⟩
+    intro j _
+    simp [ReorOut.src, flipIdx]
+  · split at h
+    · cases h
+    · obtain ⟨l0, l1, l2⟩ := perms3_lt hp
+      split at h
+      · cases h
+      · rename_i inv hinv
+        injection h with h
+        subst h
+        obtain ⟨s0, s1, s2, _⟩ := applyOrntShape_getD a0 a1 a2 f0 f1 f2 hp n0 n1 n2 nr
+        have hchar := applyOrnt_char a0 a1 a2 f0 f1 f2 hp n0 n1 n2 nr
+        have hd : (dimInfoReorient [(a0, f0), (a1, f1), (a2, f2)] d)[k]? =
+            some (some ([(a0, f0), (a1, f1), (a2, f2)].getD lab (0, 1)).1) := by
+          simp [dimInfoReorient, hk]
+        have : lab = 0 ∨ lab = 1 ∨ lab = 2 := by omega
+        rcases this with rfl | rfl | rfl
+        · refine ⟨a0, hd, l0, s0, f0, ?_⟩
+          intro j hj
+          obtain ⟨j0, j1, j2, jr, rfl, _, _, _, _, hsrc⟩ := hchar j hj
+          simp only [ReorOut.src, Bool.false_eq_true, if_false, hsrc, getD_cons3 _ l0, List.getD_cons_zero]
+        · refine ⟨a1, hd, l1, s1, f1, ?_⟩
+          intro j hj
+          obtain ⟨j0, j1, j2, jr, rfl, _, _, _, _, hsrc⟩ := hchar j hj
+          simp only [ReorOut.src, Bool.false_eq_true, if_false, hsrc, getD_cons3 _ l1, List.getD_cons_zero,
+            List.getD_cons_succ]
+        · refine ⟨a2, hd, l2, s2, f2, ?_⟩
+          intro j hj
+          obtain ⟨j0, j1, j2, jr, rfl, _, _, _, _, hsrc⟩ := hchar j hj
+          simp only [ReorOut.src, Bool.false_eq_true, if_false, hsrc, getD_cons3 _ l2, List.getD_cons_zero,
+            List.getD_cons_succ]
+
+example : ([some 2, none, some 0] : DimInfo)[0]? = some (some 2) ∧ 2 < 3 := by decide
+
+/-! ### orientation arrays, axis codes, inverse affines: the 48 signed permutations -/
+
+/-- every member of the table is a valid orientation in the sense of the driver, and the table has
+    48 distinct entries -/
+theorem allOrnts3_valid : allOrnts3.all (fun o => o.valid && o.length == 3) = true ∧
+    allOrnts3.length = 48 ∧ allOrnts3.Nodup := by
+  decide +kernel
+
+/-- `axcodes2ornt (ornt2axcodes o) = o` for all 48, and `ornt2axcodes` is injective on them -/
+theorem ornt_axcodes_roundtrip :
+    (∀ o ∈ allOrnts3, (ornt2axcodes (o.map some)).bind axcodes2ornt = .ok (o.map some)) ∧
+    (∀ o ∈ allOrnts3, ∀ o' ∈ allOrnts3, ornt2axcodes (o.map some) = ornt2axcodes (o'.map some) → o = o') := by
+  decide +kernel
+
+/-- **ornt_transform** over all 48 x 48 pairs: `ornt_transform a b` succeeds with the signed
+    permutation `t = a ; b⁻¹`; following `t` and then `b` is `a` (an image in orientation `a`
+    reoriented by `t` is in orientation `b`); `ornt_transform b a` is the inverse orientation of
+    `t`, and `t` followed by it is the identity orientation. -/
+theorem ornt_transform_inverse (a b : Ornt) (ha : a ∈ allOrnts3) (hb : b ∈ allOrnts3) :
+    orntTransform a b = .ok ((orntCompose a (orntInverse b)).map some) ∧
+    orntTransform b a = .ok ((orntInverse (orntCompose a (orntInverse b))).map some) ∧
+    isOrnt3 (orntCompose a (orntInverse b)) = true ∧
+    orntCompose (orntCompose a (orntInverse b)) b = a ∧
+    orntCompose (orntCompose a (orntInverse b)) (orntInverse (orntCompose a (orntInverse b))) = identityOrnt := by
+  have h := pairOk_all a b ha hb
+  simp only [pairOk, Bool.and_eq_true, beq_iff_eq] at h
+  obtain ⟨⟨⟨⟨⟨h1, h2⟩, h3⟩, h4⟩, h5⟩, h6⟩ := h
+  refine ⟨eqOk_elim h1, ?_, h3, h4, ?_⟩
+  · rw [← h6]; exact eqOk_elim h2
+  · rw [← h6]; exact h5
+
+example : [(1, -1), (0, 1), (2, 1)] ∈ allOrnts3 ∧ [(2, 1), (1, -1), (0, -1)] ∈ allOrnts3 := by decide
+
+/-- **inv_ornt_aff** of the inverse orientation is the inverse affine, for all 48 orientations and
+    every image shape; the inverse orientation also restores the shape. -/
+theorem inv_ornt_aff_inverse (t : Ornt) (ht : t ∈ allOrnts3) (n0 n1 n2 : Nat) (nr : List Nat) :
+    ∃ M N, invOrntAff t (n0 :: n1 :: n2 :: nr) = some M ∧
+      invOrntAff (orntInverse t) (applyOrntShape (n0 :: n1 :: n2 :: nr) t) = some N ∧
+      M.comp N = idAff ∧ N.comp M = idAff ∧
+      applyOrntShape (applyOrntShape (n0 :: n1 :: n2 :: nr) t) (orntInverse t) = n0 :: n1 :: n2 :: nr :=
+  inv_ornt_aff_inverse' t ht n0 n1 n2 nr
+
+/-! ### io_orientation / as_closest_canonical
+
+  `numpy.linalg.svd` is outside the model: `R` below is the polar factor computed at
+  orientations.py:56-71, as an integer matrix (float entries times a power of two) and `tol` the
+  scaled `allclose` tolerance.  Contract used for idempotence: the polar factor of `A·P` is `R·P`
+  for a signed permutation matrix `P` (`mulLin R inv`), which holds for the exact polar
+  decomposition because `P` is orthogonal and permutes/negates the column norms with the columns. -/
+
+/-- **io_greedy_dominant**: if every column of the 3x3 matrix has a strictly dominant entry (above
+    the tolerance) and the dominant rows are pairwise different (`σ` is a permutation), the greedy
+    loop of `io_orientation` returns exactly that signed permutation. -/
+theorem io_greedy_dominant (a b c d e f g h i : Int) (tol : Nat) (σ : List Nat)
+    (hd : Dominant [[a, b, c], [d, e, f], [g, h, i]] tol σ) :
+    ioOrientation [[a, b, c], [d, e, f], [g, h, i]] 3 tol =
+      (orntOf [[a, b, c], [d, e, f], [g, h, i]] σ).map some :=
+  io_greedy_dominant' a b c d e f g h i tol σ hd
+
+/-- non-vacuity: an oblique matrix whose dominant entries sit at rows 1, 2, 0 -/
+example : Dominant [[1, -2, 9], [-7, 3, 2], [2, 8, -1]] 0 [1, 2, 0] := by
+  refine ⟨by decide, ?_⟩
+  intro c hc
+  have : c = 0 ∨ c = 1 ∨ c = 2 := by omega
+  rcases this with rfl | rfl | rfl <;> refine ⟨by decide, ?_⟩ <;> intro r hr hne <;>
+    (have : r = 0 ∨ r = 1 ∨ r = 2 := by omega) <;> rcases this with rfl | rfl | rfl <;>
+    first | (simp at hne; done) | decide
+
+/-- **canonical_idempotent**: under the same hypothesis the orientation found is one of the 48,
+    `inv_ornt_aff` exists, the polar factor of the reoriented affine (`R·P`) has a positive,
+    strictly dominant diagonal, and `io_orientation` of it is the identity orientation — so
+    canonicalising a second time returns the image itself (`canonical_second_is_self`). -/
+theorem canonical_idempotent (a b c d e f g h i : Int) (tol : Nat) (σ : List Nat)
+    (hd : Dominant [[a, b, c], [d, e, f], [g, h, i]] tol σ) (n0 n1 n2 : Nat) (nr : List Nat) :
+    ioOrientation [[a, b, c], [d, e, f], [g, h, i]] 3 tol =
+        (orntOf [[a, b, c], [d, e, f], [g, h, i]] σ).map some ∧
+      isOrnt3 (orntOf [[a, b, c], [d, e, f], [g, h, i]] σ) = true ∧
+      ∃ inv, invOrntAff (orntOf [[a, b, c], [d, e, f], [g, h, i]] σ) (n0 :: n1 :: n2 :: nr) = some inv ∧
+        ioOrientation (mulLin [[a, b, c], [d, e, f], [g, h, i]] inv) 3 tol = identityOrnt.map some ∧
+        0 < entry (mulLin [[a, b, c], [d, e, f], [g, h, i]] inv) 0 0 ∧
+        0 < entry (mulLin [[a, b, c], [d, e, f], [g, h, i]] inv) 1 1 ∧
+        0 < entry (mulLin [[a, b, c], [d, e, f], [g, h, i]] inv) 2 2 :=
+  canonical_idempotent' a b c d e f g h i tol σ hd n0 n1 n2 nr
+
+/-- when `io_orientation` answers the identity orientation, `as_closest_canonical` returns the
+    image itself: same data, same affine, same dim_info -/
+theorem canonical_second_is_self (A : Aff Int) (shape : List Nat) (d : DimInfo) (R : List (List Int))
+    (tol : Nat) (h : ioOrientation R 3 tol = identityOrnt.map some) :
+    asClosestCanonical A shape d R tol false = .ok (identityOrnt.map some, ⟨true, shape, A, identityOrnt, d⟩) := by
+  have hto : OrntN.toOrnt (List.map some identityOrnt) = some identityOrnt := rfl
+  simp [asClosestCanonical, h, asReoriented, hto]
+
+example : ioOrientation [[4, 0, 1], [0, 3, 0], [1, 0, 5]] 3 0 = identityOrnt.map some := by decide
 
 end Nb.C05
